@@ -106,3 +106,8 @@ benign("c16-benign-psot-reordered-terms", ["C16"],
     [("jpeg2000/encoder.go", "uint32(len(data)+tileHeader.Len()+14)", "uint32(14+tileHeader.Len()+len(data))")])
 benign("c16-benign-length-via-local", ["C16"],
     [("jpeg2000/encoder.go", "	if err := binary.Write(buf, binary.BigEndian, uint16(sizData.Len()+2)); err != nil {", "	lsiz := sizData.Len() + 2\n	if err := binary.Write(buf, binary.BigEndian, uint16(lsiz)); err != nil {")])
+# ---------------------------------------------------------------- C09
+brk("c09-dht-offset-not-advanced", ["C09"],
+    [("jpeg/baseline/decoder.go", "		offset++\n\n		// Read the number of codes for each length\n		table := &standard.HuffmanTable{}\n		totalCodes := 0\n		for i := 0; i < 16; i++ {\n			if offset >= len(data) {\n				return standard.ErrInvalidDHT\n			}\n			table.Bits[i] = int(data[offset])\n			totalCodes += table.Bits[i]\n			offset++\n		}",
+      "		// Read the number of codes for each length\n		table := &standard.HuffmanTable{}\n		totalCodes := 0\n		for i := 0; i < 16; i++ {\n			if offset+1+i >= len(data) {\n				return standard.ErrInvalidDHT\n			}\n			table.Bits[i] = int(data[offset+1+i])\n			totalCodes += table.Bits[i]\n		}")],
+    "PROGRESS", "parseDHT")
